@@ -18,7 +18,8 @@ MODELLED = ["Underlying classes Spot/Asian/DefaultTime/NthDefaultTimes, Barrier.
             "(hand models in Model/Payoff.v tied by vm_compute correspondence on operation sequences)",
             "np.exp/np.log: arbitrary functions in the theorems; in the correspondence the floats numpy returned are fed to the model as a table",
             "numpy 1-d arrays as lists; path[..., -1] as `last`; empty paths (IndexError) are outside the model",
-            "not modelled: LookBack, Rainbow, CDS, Bond, Cap, Ratchet, Swaption, Mean, Performances, Indicators, LogSpot, NthSpot "
+            "modelled underlyings: Spot, Libors (= Spot), LogSpot, Asian, DefaultTime, NthDefaultTimes; payoffs: Forward, Vanilla, CallSpread, Butterfly, Digital, Barrier. "
+            "Not modelled: LookBack (F-C17-8), Rainbow, CDS, Bond, Cap, Ratchet, Swaption, Mean, Performances, Indicators, NthSpot "
             "(not named by the statement)"]
 ASSUMPTIONS = ["floats are modelled by exact rationals: exact comparison on dyadic inputs (identity representation), relative "
                "tolerance 2^-36 where np.exp entered a value (LOG representation)",
@@ -28,7 +29,13 @@ THEOREM_NOTES = {
     "C17_butterfly": "call-combination identity for all strikes; non-negativity holds iff k1 + k3 <= 2 k2 (proved as an equivalence)",
     "C17_butterfly_nonneg_refuted": "F-C17-4: Butterfly(0,1,10) accepted by the constructor, evaluate(20) = -8 < 0",
     "C17_in_out": "stated on product objects in arbitrary states (after the fix of F-C17-1 the flag is recomputed per path)",
-    "C17_history_free": "about the repaired tree (fix commits for F-C17-1, F-C17-2, F-C17-3 on branch fix-paths); on the unrepaired "
+    "C17_product_rep_agree": "about the repaired tree (fix 'path-dependent payoffs see spot values in the log representation too', F-C17-7); "
+                             "Spot underlying, every modelled payoff incl. barriers",
+    "C17_history_free": "a statement about the HAND-WRITTEN state machine of Model/Payoff.v (two booleans: barrier flag, representation binding): "
+                        "process/update/underlying_value are not generated from the source, so purity of the code itself is established by the "
+                        "operation-sequence correspondence and the fresh-object oracle (sampled), not by proof; classes outside the model "
+                        "(LookBack is stateful through max_spot and cannot be valued at all: F-C17-8) are not covered; "
+                        "about the repaired tree (fix commits for F-C17-1, F-C17-2, F-C17-3 on branch fix-paths); on the unrepaired "
                         "tree the oracle reports the history dependence with findings F-C17-1/F-C17-2/F-C17-3",
 }
 
@@ -490,6 +497,67 @@ def nth_default_cases(res, rng, tier):
     return cases
 
 
+def representation_oracle(res, rng, tier):
+    """the SAME spot path under the identity and the LOG representation on fresh products: every payoff class, in
+    particular barriers (whose level is in spot units), must give the same value"""
+    import numpy as np
+    for i in range(200 if tier == "quick" else 2500):
+        n = rng.randrange(1, 10)
+        times, path = gen_times(rng, n), gen_spot_path(rng, n, False)
+        pay = gen_payoff(rng) if i % 2 else ("barrier", rng.choice([1, -1]), dy(rng, 70, 150, 8), rng.random() < 0.5, rng.random() < 0.5,
+                                            dy(rng, 60, 160, 8) + 1 / 16)      # barrier never equal to a path value (exp(log x) rounding)
+        pspec = {"und": ("spot",), "pay": pay, "notional": dy(rng, 0.25, 8, 4)}
+        vals = {}
+        for lg in (False, True):
+            prod = make_product(pspec)
+            prod.update(rep_enum(lg))
+            arr = np.log(np.array(path)) if lg else np.array(path)
+            u = float(prod.underlying_value(np.array(times), arr, arr))
+            vals[lg] = (u, float(prod(u)))
+        res.count(("rep", json.dumps(pspec), tuple(path)), nontrivial=pay[0] == "barrier" and min(path) < pay[5] < max(path), kind=f"same spot path, both representations ({pay[0]})")
+        if abs(vals[True][1] - vals[False][1]) > 1e-9 * max(1.0, abs(vals[False][1])):
+            res.violation("the value of a product on the same spot path depends on the process representation",
+                          {"kind": "rep-product", "finding": "F-C17-7", "product": pspec, "times": times, "spot_path": path,
+                           "identity": list(vals[False]), "log": list(vals[True])})
+
+
+def lookback_oracle(res):
+    """LookBack is stateful through max_spot; its process() raises by design, so the product cannot be valued on a path"""
+    import numpy as np
+    from rpylib.product import payoff as P
+    from rpylib.product.product import Product
+    from rpylib.product.underlying import Spot
+    prod = Product(Spot(), P.LookBack(100.0), 1.0)
+    t, path = np.array([0.0, 0.5, 1.0]), np.array([4.5, 4.75, 4.625])
+    res.count(("lookback",), kind="LookBack")
+    try:
+        u = prod.underlying_value(t, path, path)
+        v1 = float(prod(u))
+        u2 = prod.underlying_value(t, path - 1.0, path - 1.0)
+        fresh = Product(Spot(), P.LookBack(100.0), 1.0)
+        v2, vf = float(prod(u2)), float(fresh(fresh.underlying_value(t, path - 1.0, path - 1.0)))
+        if v2 != vf:
+            res.violation("LookBack: the value depends on the paths processed earlier", {"kind": "lookback", "values": [v1, v2, vf]})
+    except Exception as e:  # noqa
+        res.violation("LookBack payoff cannot be valued on a path: process() raises", {"kind": "lookback", "finding": "F-C17-8",
+                                                                                      "error": f"{type(e).__name__}: {e}", "max_spot_left_behind": float(prod.payoff.max_spot)})
+
+
+def matches_known(v, known):
+    """a violation is accepted as a recorded finding only if it is exactly the recorded class"""
+    r, kid = v["replay"], known["id"]
+    if kid == "F-C17-4":
+        try:
+            k1, k2, k3, u, got = (Fraction(r[x]) for x in ("k1", "k2", "k3", "u", "got"))
+        except Exception:  # noqa
+            return False
+        call = lambda k: max(u - k, Fraction(0))   # noqa
+        return r.get("kind") == "butterfly" and k1 < k2 < k3 and k1 + k3 > 2 * k2 and got < 0 and got == call(k1) - 2 * call(k2) + call(k3)
+    if kid == "F-C17-8":
+        return r.get("kind") == "lookback" and r.get("error", "").startswith("ValueError: it depends on the process representation")
+    return False
+
+
 def mlmc_oracle(res, rng, tier):
     """MLMCPath.process (fine and coarse path on one product object) against fresh objects"""
     import numpy as np
@@ -521,9 +589,16 @@ HEADER = """From Coq Require Import ZArith QArith List Bool.
 From RV Require Import Base.QB Base.Corr Gen.GenC17Payoff Model.Payoff.
 Import ListNotations.
 Open Scope Q_scope.
-Definition seq_check (c : list (Q * Q) * list (Q * Q) * Q * product * list op * list out) : bool :=
-  match c with (et, lt, tol, pr, ops, outs) =>
-    list_eqb (out_eqb tol) (snd (run (qlookup et) (qlookup lt) pr fresh ops)) outs end.
+(* one tolerance per output: 0 (exact) unless np.exp entered that value *)
+Fixpoint outs_eqb (tols : list Q) (a b : list out) : bool :=
+  match tols, a, b with
+  | [], [], [] => true
+  | tol :: ts, x :: r, y :: s => out_eqb tol x y && outs_eqb ts r s
+  | _, _, _ => false
+  end.
+Definition seq_check (c : list (Q * Q) * list (Q * Q) * list Q * product * list op * list out) : bool :=
+  match c with (et, lt, tols, pr, ops, outs) =>
+    outs_eqb tols (snd (run (qlookup et) (qlookup lt) pr fresh ops)) outs end.
 Definition payoff_check (c : payoff * bool * Q * Q) : bool :=
   match c with (p, ev, u, e) => Qeq_bool (payoff_eval p ev u) e end.
 Definition nth_check (c : nat * list Q * list Q * list (list Q) * bool * list (Q * Q) * uval) : bool :=
@@ -541,6 +616,8 @@ def correspond(res):
     underlying_oracle(res, rng, tier)
     nth_cases = nth_default_cases(res, rng, tier)
     mlmc_oracle(res, rng, tier)
+    representation_oracle(res, rng, tier)
+    lookback_oracle(res)
 
     seq_cases, seq_meta = [], []
     reported = set()
@@ -559,7 +636,9 @@ def correspond(res):
                 if o[0] == "uv":
                     _, _, path, _ = o
                     b, down = pspec["pay"][5], pspec["pay"][4]
-                    flags.add(any((v < b) if down else (v > b) for v in path))
+                    import math
+                    spots = [math.exp(v) for v in path] if (path and max(path) < 10) else path      # LOG-scale paths
+                    flags.add(any((v < b) if down else (v > b) for v in spots))
             res.bump("seq_barrier_paths", "knocked+unknocked" if len(flags) == 2 else ("knocked" if True in flags else "unknocked"))
         ok = history_check(res, pspec, real_ops, outs, pos)
         for o in outs:
@@ -569,10 +648,22 @@ def correspond(res):
                     res.violation(f"operation on the product raises: {o[1]}", {"kind": "history", "product": pspec, "ops": [list(x) for x in real_ops],
                                                                               **({"finding": "F-C17-3"} if pspec["und"][0] == "asian" else {})})
         et, lt = tables_for(pspec, real_ops)
-        tol = TOL_LOG if uses_log else Fraction(0)
+        # tolerance only for the outputs that np.exp entered: underlying values under the LOG representation and calls on them
+        tols, cur_log, tainted_u = [], False, False
+        for o in real_ops:
+            if o[0] == "update":
+                cur_log = o[1]
+                tols.append(Fraction(0))
+            elif o[0] == "uv":
+                tainted_u = cur_log or (pspec["und"][0] == "logspot")      # np.exp / np.log entered the value
+                tols.append(TOL_LOG if tainted_u else Fraction(0))
+            else:
+                prev_u = next((x for x in reversed(real_ops[:len(tols)]) if x[0] == "uv"), None)
+                from_u = prev_u is not None and real_ops[len(tols) - 1][0] == "uv"
+                tols.append(TOL_LOG if (from_u and tainted_u) else Fraction(0))
         prod_lit = f"(Build_product {und_lit(pspec['und'])} {payoff_lit(pspec['pay'])} {qlit(pspec['notional'])})"
         with_j = pspec["und"][0] == "dt"
-        seq_cases.append(f"({table_lit(et if uses_log else {})}, {table_lit(lt)}, {qlit(tol)}, {prod_lit}, "
+        seq_cases.append(f"({table_lit(et if uses_log else {})}, {table_lit(lt)}, {lst([qlit(t) for t in tols])}, {prod_lit}, "
                          f"{lst([op_lit(o, with_j) for o in real_ops])}, {lst([out_lit(o) for o in outs])})")
         seq_meta.append((pspec, real_ops, outs))
 
@@ -584,7 +675,7 @@ def correspond(res):
                for k in range(0, len(nth_cases), 1000)]
     shard = 400
     for k in range(0, len(seq_cases), shard):
-        groups.append((f"seq{k // shard}", "list (Q * Q) * list (Q * Q) * Q * product * list op * list out", "seq_check", seq_cases[k:k + shard]))
+        groups.append((f"seq{k // shard}", "list (Q * Q) * list (Q * Q) * list Q * product * list op * list out", "seq_check", seq_cases[k:k + shard]))
     from concurrent.futures import ThreadPoolExecutor
     res.case_lemmas += len(groups)
 
